@@ -28,4 +28,3 @@ m = {
     'notes': src['notes'],
 }
 json.dump(m, open(os.path.join(V, 'MANIFEST.json'), 'w'), indent=1)
-import jsonschema  # noqa
